@@ -22,7 +22,7 @@ type fieldRule struct {
 
 var accelFields = []fieldRule{
 	{"geometry", "baseSeries", "index",
-		[]string{"(*geometry.baseSeries).Index", "(*geometry.baseSeries).Search", "(*geometry.baseSeries).buildIndex"},
+		[]string{"(*geometry.baseSeries).Index", "(*geometry.baseSeries).Search", "(*geometry.baseSeries).buildIndex", "(*geometry.baseSeries).Move"},
 		[]string{"(*geometry.baseSeries).setCompressed", "(*geometry.baseSeries).clearIndex"},
 		"the compressed segment index is read by Search (and the already-built test) and written only by the builder"},
 	{"geometry", "baseSeries", "indexKind",
